@@ -381,11 +381,8 @@ class Check:
         self.theorems = {}
         os.makedirs(EVID, exist_ok=True)
         self.keep_evidence = keep_evidence
-        if not keep_evidence:
-            try:
-                os.remove(os.path.join(EVID, prop + ".json"))
-            except OSError:
-                pass
+        # the evidence file is rewritten (atomically) by finish(); it is not removed up front so that an interrupted
+        # run never leaves the tree without evidence for a claimed property
 
     # -- proofs ------------------------------------------------------------------------------------
     def prove(self, module_rel, extra_targets=()):
@@ -518,8 +515,10 @@ class Check:
         if extra:
             self.cov.update(extra)
         if not self.keep_evidence:
-            with open(os.path.join(EVID, self.prop + ".json"), "w") as f:
+            tmp = os.path.join(EVID, "." + self.prop + ".json.tmp")
+            with open(tmp, "w") as f:
                 json.dump(ev, f, indent=1, sort_keys=True, default=str)
+            os.replace(tmp, os.path.join(EVID, self.prop + ".json"))
         sys.stdout.flush()
         return 1 if seen else 0
 
